@@ -569,6 +569,13 @@ def likelihoods(rec):
                      ('GaussianErrorModel', 'ConstantAndMultiplicativeGaussianErrorModel')]:
             configs.append(('LogLikelihood(toy %d par, %s)' % (n_par, [e[:8] for e in errs]), lambda n_par=n_par, errs=errs: make_ll(real, n_par, errs)))
 
+    def shared_error_model(n_par):
+        Toy = toy_model(real, n_par, 2)
+        em = real.GaussianErrorModel()
+        return real.LogLikelihood(Toy(), [em, em], [3.0 + 0.2 * np.arange(3) + r for r in range(2)], [np.arange(1, 4, dtype=float) + 0.5 * r for r in range(2)])
+    configs.append(('LogLikelihood(toy 2 par, the same GaussianErrorModel object for both outputs)', lambda: shared_error_model(2)))
+    configs.append(('LogLikelihood(toy 1 par, the same GaussianErrorModel object for both outputs)', lambda: shared_error_model(1)))
+
     def allnames(ll):
         sub = ll.get_submodels()
         full = list(sub['Mechanistic model'].parameters())
